@@ -77,6 +77,8 @@ struct Model {
     /// complete-but-unacknowledged tail entry that may legitimately be present
     maybe_tail: Option<(u64, RecordBatch)>,
     log: Vec<String>,
+    /// directory of the WAL under test (for the durability watch)
+    dir: String,
 }
 
 fn cfg(dir: &str, seg: usize) -> WalConfig {
@@ -270,6 +272,23 @@ async fn checked_append(wal: &mut WriteAheadLog, b: &RecordBatch, m: &mut Model,
                 });
             }
             Some(s)
+                .map(|s| {
+                    // sync mode EveryWrite: when append returns, every byte of the log must have been
+                    // followed by an fdatasync / fsync (observed through the interposed libc symbols)
+                    // (only the active = highest-numbered segment is judged: older segments and copied
+                    // directories were synced under another path or by an earlier incarnation)
+                    let mut unsynced = crate::clock::unsynced_wal_bytes(&m.dir);
+                    unsynced.sort();
+                    let active = segments(&m.dir).last().map(|x| std::path::Path::new(&x.0).file_name().unwrap().to_string_lossy().to_string());
+                    unsynced.retain(|u| Some(&u.0) == active.as_ref());
+                    if !unsynced.is_empty() {
+                        v.push(Viol {
+                            sig: "C05/durability/append-returned-before-sync".into(),
+                            what: format!("{stage}: append (sequence {}) returned while WAL bytes were not synced: {:?} (file, size, synced up to)", s, unsynced),
+                        });
+                    }
+                    s
+                })
         }
         Err(e) => {
             v.push(Viol { sig: "C05/append-error".into(), what: format!("{stage}: append failed: {e}") });
@@ -281,6 +300,7 @@ async fn checked_append(wal: &mut WriteAheadLog, b: &RecordBatch, m: &mut Model,
 /// Side branch on a copy: restart, append, restart, append, restart.
 async fn side_branch(dir: &str, seg: usize, mut m: Model, rng: &mut Rng, next_id: &mut i64, label: &str) -> Vec<Viol> {
     let mut v = vec![];
+    m.dir = dir.to_string();
     for round in 0..3 {
         let stage = format!("{label}/reopen#{}", round + 1);
         let Some(mut wal) = restart(dir, seg, &mut m, &stage, &mut v).await else { return v };
@@ -329,7 +349,7 @@ async fn one_history(ctx: &Ctx, out: &mut Outcome, rng: &mut Rng, idx: u64, root
     std::fs::create_dir_all(&dir).unwrap();
     let seg = *rng.pick(&[1usize, 400, 900, 2500, 1 << 20]);
     let mut next_id = (idx as i64) * 1_000_000;
-    let mut m = Model { acked: vec![], trunc_bound: 0, max_mark: 0, flushed: 0, maybe_tail: None, log: vec![format!("segment_limit={}", seg)] };
+    let mut m = Model { acked: vec![], trunc_bound: 0, max_mark: 0, flushed: 0, maybe_tail: None, log: vec![format!("segment_limit={}", seg)], dir: dir.clone() };
     let mut viols: Vec<Viol> = vec![];
     let mut wal = match WriteAheadLog::open(cfg(&dir, seg)).await {
         Ok(w) => w,
